@@ -65,10 +65,24 @@ CLAIMED = {
         "quick_timeout": 900,
         "thorough_timeout": 14400,
     },
+    "C16": {
+        "engine": "rng-seam-poisson",
+        "category": "exploration",
+        "technique": "deterministic simulation of the hidden RNG behind every radial Poisson solve and of the data store behind the robust solver's Coulomb table, over histories of solves on one shared grid object and one shared options dict",
+        "text": "NARROW SCOPE. C16 quantifies over densities, grids and options - an input space this technique does not decide. Decided by simulation: every (l,m) radial solve of "
+        "solve_poisson_bvp / solve_poisson_robust starts from the process-global RNG, so accuracy, linearity V[a*rho1+b*rho2]=a*V[rho1]+b*V[rho2] and the robust solver's "
+        "exact-core identity must hold when each solve gets a different, adversarial draw and an arbitrary prior RNG history; and histories on shared state - one AtomGrid "
+        "object (lazy harmonic basis) and a second one of the same size, one options dict reused by BVP and IVP calls, the lazily loaded Coulomb table hit by a store "
+        "fault on first use and then retried - must not change a later potential. Densities (on-centre s- and p-type Gaussians inside the resolution envelope) are workload.",
+        "design_ref": "DESIGN.md section 3 (C16)",
+        "note": "Bounds calibrated on this tree: accuracy 5e-3 (seen 7e-5), spread between draws max(1e-8, 0.05*tol) (seen 1e-3*tol), linearity 5*tol (seen 0.06*tol), exact core 1e-7 (seen 2e-11). "
+        "Off-centre and molecular densities are outside the sampled envelope (5-40 s per solve).",
+        "quick_timeout": 1200,
+        "thorough_timeout": 21600,
+    },
 }
 
 PLANNED = {
-    "C16": "claimed narrowly in DESIGN.md (rng-seam engine); check not built yet in this commit",
 }
 
 NOT_APPLICABLE = {
@@ -123,6 +137,7 @@ def main():
             {"name": "cache-history", "path": "engines/cache_history.py", "serves_properties": ["C19"], "kind_free_text": "deterministic simulation of call histories + store faults + scheduled caller threads"},
             {"name": "caller-env", "path": "engines/caller_env.py", "serves_properties": ["C20"], "kind_free_text": "deterministic simulation of caller memory and callbacks with enumerated cancellation points"},
             {"name": "rng-seam-ode", "path": "engines/rng_seam.py", "serves_properties": ["C15"], "kind_free_text": "deterministic simulation of the global-RNG seam behind the BVP solver's default guess"},
+            {"name": "rng-seam-poisson", "path": "engines/poisson_seam.py", "serves_properties": ["C16"], "kind_free_text": "deterministic simulation of the global-RNG seam and the Coulomb-table store seam behind the Poisson solvers"},
             {"name": "grid-history", "path": "engines/grid_history.py", "serves_properties": ["C10"], "kind_free_text": "deterministic simulation of query/reassignment/selection histories on live grid objects"},
         ],
         "checks": [check_entry(pid, CLAIMED[pid]) for pid in sorted(CLAIMED)],
